@@ -34,6 +34,10 @@ CTXS = [
     {},
     {"quote_char": "`"},
     {"quote_char": None, "with_namespace": True},
+    # rendered for a dialect: the operator structure is the same in every one of them
+    {"quote_char": '"', "dialect": ns.Dialects.SQLLITE}, {"quote_char": "`", "dialect": ns.Dialects.MYSQL},
+    {"quote_char": '"', "dialect": ns.Dialects.POSTGRESQL}, {"quote_char": None, "dialect": ns.Dialects.ORACLE},
+    {"quote_char": '"', "dialect": ns.Dialects.MSSQL}, {"quote_char": '"', "dialect": ns.Dialects.CLICKHOUSE},
 ]
 
 
@@ -43,7 +47,7 @@ def counts(tier):
 
 def generate(rng, n, tier):
     for i in range(n):
-        g = gen.G(rng, strings="plain", allow_params=rng.random() < 0.2)
+        g = gen.G(rng, strings="plain", allow_params=rng.random() < 0.2, allow_filter=True)
         d = rng.choice([1, 2, 2, 3, 3, 4, 5, 6]) if tier == "thorough" else rng.choice([1, 2, 2, 3, 3, 4, 5])
         src = g.num(d) if rng.random() < 0.55 else g.crit(d)
         yield {"recipe": src, "ctx": rng.randrange(len(CTXS)), "position": rng.choice(["bare", "bare", "select", "where", "having", "on", "set"])}
